@@ -209,8 +209,6 @@ def run(ctx):
                     k += 1
                     if k % ctx.nshards != ctx.shard:
                         continue
-                    if ctx.tier == 'quick' and (y + wk + wn) % 3:
-                        continue
                     freq, extra = ((R.DAILY, {}) if k % 2 else (R.YEARLY, {'byweekday': [R.MO, R.WE, R.SU]}))
                     kw = dict(freq=freq, dtstart=D.datetime(y, 12, 15, 9), byweekno=[wn], wkst=wk, count=12, **extra)
                     one_rule(ctx, R, probe, kw, {'start_kind': 'naive'})
@@ -265,7 +263,7 @@ def floors(agg, tier):
         out.append('period probe could not locate the loop header / cursor: iterations were bounded by line budget only')
     if c.get('subdaily_day_jump_rules', 0) < 150:
         out.append('only %d directed sub-daily day-jump rules' % c.get('subdaily_day_jump_rules', 0))
-    if c.get('weekno_boundary_rules', 0) < 400:
+    if c.get('weekno_boundary_rules', 0) < 1500:
         out.append('only %d directed week-number rules' % c.get('weekno_boundary_rules', 0))
     if c.get('never_matching_rules', 0) < len(NEVER) * 2:
         out.append('never-matching class incomplete')
